@@ -172,12 +172,20 @@ class Detect(Obligation):
                 for i in range(self.h)]
         probe = POOL[int(frac_of(inputs.get('probe', 0)))]
         saved = list(mod._readers)
+        import importlib
         try:
             with warnings.catch_warnings():
                 warnings.simplefilter('ignore')
+                # module state as in a fresh process: whatever the module
+                # keeps besides the registry list starts from its initial
+                # value for every replay
+                importlib.reload(mod)
                 pristine, after, again, regs_ok = self._run(
                     mod, readers, hist, probe)
         finally:
+            with warnings.catch_warnings():
+                warnings.simplefilter('ignore')
+                importlib.reload(mod)
             mod._readers[:] = saved
         viol = {}
         if pristine != after:
